@@ -321,16 +321,19 @@ func genC12(c *Ctx) {
 		c.Fail("c12.source", none, f.key, f.what)
 	}
 	// the wall-clock scenarios of the silence rule (12 s each) overlap everything else
-	nAlive := 6
+	nAlive := 10
 	if c.Thorough() {
-		nAlive = 7 // + the pinger scenario with a FIN (the pinger needs two periods to notice)
+		nAlive = 14 // + the pinger scenario with a FIN (the pinger needs two periods to notice), all black holes on both client sizes
 	}
 	alive := make([]*c12Job, nAlive)
 	aliveDone := make(chan int, nAlive)
 	for mode := range alive {
 		mode := mode
 		alive[mode] = &c12Job{kind: "c12.seq", class: []string{"seq|alive|pong-keeps-alive", "seq|alive|nonce-keeps-alive", "seq|alive|silent-reconnects",
-			"seq|outage|short", "seq|outage|long", "seq|pinger|survives-reconnect|rst", "seq|pinger|survives-reconnect|fin"}[mode]}
+			"seq|outage|short", "seq|outage|long", "seq|pinger|survives-reconnect|rst",
+			"seq|blackhole|accept-only|c1", "seq|blackhole|partial-handshake|c2", "seq|blackhole|handshake-then-silence|c1", "seq|blackhole|accept-only|c2",
+			"seq|pinger|survives-reconnect|fin",
+			"seq|blackhole|partial-handshake|c1", "seq|blackhole|handshake-then-silence|c2", "seq|blackhole|accept-only|c1|b"}[mode]}
 		go func() {
 			j := alive[mode]
 			acts := sx.L(sx.L(sx.A("alive"), sx.Nat(mode)))
@@ -339,9 +342,21 @@ func genC12(c *Ctx) {
 			var bad string
 			if mode < 3 {
 				events, fails, bad = runC12Alive(mode)
-			} else if mode >= 5 {
-				acts = sx.L(sx.L(sx.A("pinger"), sx.Nat(6-mode)))
+			} else if mode == 5 || mode == 10 {
+				acts = sx.L(sx.L(sx.A("pinger"), sx.Nat(map[int]int{5: 1, 10: 0}[mode])))
 				events, fails, bad = runC12Pinger(mode == 5)
+			} else if mode >= 6 {
+				ph := map[int][2]int{6: {1, 1}, 7: {2, 2}, 8: {3, 1}, 9: {1, 2}, 11: {2, 1}, 12: {3, 2}, 13: {1, 1}}[mode]
+				acts = sx.L(sx.L(sx.A("blackhole"), sx.Nat(ph[0]), sx.Nat(ph[1])))
+				j.in = sx.L(sx.Nat(ph[1]), acts, sx.L())
+				events, fails, bad = runC12BlackHole(ph[0], ph[1])
+				j.in = sx.L(sx.Nat(ph[1]), acts, sx.L(events...))
+				j.out, j.fails = sx.A("accept"), fails
+				if bad != "" && len(fails) == 0 {
+					j.bad = bad
+				}
+				aliveDone <- mode
+				return
 			} else {
 				acts = sx.L(sx.L(sx.A("outage"), sx.Nat(mode-3)))
 				events, fails, bad = runC12Outage(mode == 4)
@@ -462,7 +477,9 @@ func genC12(c *Ctx) {
 		case strings.Contains(out, "'crash") || strings.Contains(out, "'timeout"):
 			c.Fail("c12.auth", in, "process-crash", "the process died (or froze) during the scenario: "+out)
 		case strings.Contains(out, "'hang"):
-			c.Fail("c12.auth", in, "call-hangs", "a call under a caller deadline of 1 h did not return by the client timeout: "+trunc(out, 200))
+			c.Fail("c12.auth", in, "call-hangs", "a call under a caller deadline of 1 h did not return by the client timeout, or NewConnection did not return by its context deadline: "+trunc(out, 200))
+		case strings.Contains(out, "'goroutine-growth"):
+			c.Fail("c12.auth", in, "goroutine-growth", "calls issued while a connection is in a black hole leave goroutines behind: "+trunc(out, 200))
 		case strings.Contains(out, "'noreconnect"):
 			c.Fail("c12.auth", in, "no-reconnect", "the connection was not re-established after a failed send: "+trunc(out, 200))
 		}
